@@ -215,8 +215,9 @@ fn strip_literals(s: &str) -> String {
 }
 
 pub fn rel_file(f: &str) -> String {
+    // the same source file must give the same signature in /repo and in a scratch copy of it
     if let Some(i) = f.find("/rust/") {
-        if f.starts_with("/repo") {
+        if !f.contains("/.cargo/") && !f.starts_with("/rustc/") {
             return f[i + 1..].to_string();
         }
     }
@@ -529,7 +530,8 @@ where
                                     }
                                     Ok(())
                                 }
-                                Err(f) if known.iter().any(|k| *k == f.sig) => {
+                                Err(f) if known.iter().any(|k| *k == f.sig) || f.sig.starts_with("infrastructure:") => {
+                                    // (a watchdog / worker hiccup is inconclusive for that one case: counted, never a violation)
                                     if counting {
                                         *excluded.borrow_mut().entry(f.sig.clone()).or_default() += 1;
                                     }
